@@ -440,6 +440,7 @@ func init() {
 					pj("C18/sched", "rs W=2 db4", "instr-w2", "rs", "rwmix+rw3", 4, 900, true),
 					pj("C18/sched", "rs W=2 db3 read crossing EOF", "instr-w2", "rs", "rweof", 3, 900, true),
 					pj("C18/sched", "os W=3 db3", "instr-w3", "os", "rwmix+rw3", 3, 900, true),
+					pj("C18/sched", "os W=2 db3", "instr-w2", "os", "rw2", 3, 600, true),
 					pj("C18/sched", "rs W=2 db3 path kept across buffer reuse", "instr-w2", "rs", "pathkeep", 3, 600, true),
 					pj("C18/sched", "os W=2 db3 path kept across buffer reuse", "instr-w2", "os", "pathkeep", 3, 600, true),
 				}
@@ -450,7 +451,6 @@ func init() {
 					pj("C18/sched", "rs W=2 db3", "instr-w2", "rs", "rw2", 3, 100, true),
 					pj("C18/sched", "rs W=2 db2 read crossing EOF", "instr-w2", "rs", "rweof", 2, 100, true),
 					pj("C18/sched", "os W=2 db2", "instr-w2", "os", "rwmix+rw3", 2, 100, true),
-					pj("C18/sched", "os W=2 db3", "instr-w2", "os", "rw2", 3, 100, true),
 					pj("C18/sched", "rs W=2 db2 path kept across buffer reuse", "instr-w2", "rs", "pathkeep", 2, 100, true),
 					pj("C18/sched", "os W=2 db2 path kept across buffer reuse", "instr-w2", "os", "pathkeep", 2, 100, true),
 				}
